@@ -19,13 +19,20 @@ def _pop_(fmap, _l):
 
 
 def _push_cc(fmap, _cc, _x):
-    fmap[sp] = tst(_cc, fmap[sp] - _x.length, None)
-    fmap[mem(sp, _x.size)] = tst(_cc, _x, None)
+    # push _x if condition _cc holds, otherwise leave sp and the stack unchanged:
+    _cc = fmap(_cc)
+    _sp = fmap[sp]
+    fmap[sp] = tst(_cc, _sp - _x.length, _sp)
+    _top = mem(sp, _x.size)
+    fmap[_top] = tst(_cc, _x, fmap(_top))
 
 
-def _pop_cc(fmap, _cc, _l):
-    fmap[_l] = tst(_cc, fmap(mem(sp, _l.size)), None)
-    fmap[sp] = tst(_cc, fmap[sp] + _l.length, None)
+def _pop_cc(fmap, _cc, _l, _else):
+    # pop into _l if condition _cc holds, otherwise _l receives _else:
+    _cc = fmap(_cc)
+    _sp = fmap[sp]
+    fmap[_l] = tst(_cc, fmap(mem(sp, _l.size)), _else)
+    fmap[sp] = tst(_cc, _sp + _l.length, _sp)
 
 
 def __halfcarry__(_a, _b):
@@ -593,8 +600,9 @@ def i_CALL(i_, fmap):
 def i_CALLcc(i_, fmap):
     src = i_.operands[0]
     _back = fmap[pc] + i_.length
+    _cc = fmap(i_.cond[1])
     _push_cc(fmap, i_.cond[1], _back)
-    fmap[pc] = tst(i_.cond[1], fmap(src), _back)
+    fmap[pc] = tst(_cc, fmap(src), _back)
 
 
 def i_RET(i_, fmap):
@@ -603,7 +611,7 @@ def i_RET(i_, fmap):
 
 def i_RETcc(i_, fmap):
     _back = fmap[pc] + i_.length
-    _pop_cc(fmap, i_.cond[1], _back)
+    _pop_cc(fmap, i_.cond[1], pc, _back)
 
 
 def i_RETI(i_, fmap):
